@@ -15,9 +15,15 @@
    value; the token after a leaf / leaf-list name is its value and must be the
    last one.  Ending on a non-presence container, on a list name or on a leaf
    (leaf-list) name without value is acceptable only when incomplete paths are
-   allowed (inc); an empty-typed leaf needs no value, so its name ends a complete
-   path (the only token its type accepts after the name is the empty string, and
-   like any value it must be the last one).  Ending on a presence container, a list
+   allowed (inc); an empty-typed LEAF needs no value, so its name ends a complete
+   path (RFC 6020 9.11: type empty "represents a leaf that does not have any
+   value, it conveys information by its presence or absence"; the only token its
+   type accepts after the name is the empty string, and like any value it must be
+   the last one).  That is the one exception, and it is about leaves: an entry of a
+   LEAF-LIST is identified by its value (7.7), whatever the type, so a path that
+   stops at the name of a leaf-list - also one of type empty, which RFC 6020 does
+   not forbid - names no entry and falls under the rule of the statement: accepted
+   only when incomplete paths are allowed.  Ending on a presence container, a list
    entry or a value is complete.
 
    Verdict: [ok, at]; at = 0 when accepted, else the 1-based index of the first
@@ -44,6 +50,8 @@ NKeys(l)    == Len(l.keys)
 FirstKey(l) == l.keys[1]                 \* first in the order of the key statement
 KeyType(l)  == VisibleNamed(l.kids, FirstKey(l)).typ
 ValueNode(n) == n.kind \in {"leaf", "leaflist"}
+\* the one value node whose name alone is a complete path: a LEAF of type empty (not a leaf-list, see above)
+NeedsNoValue(n) == n.kind = "leaf" /\ IsEmptyType(n.typ)
 
 \* ---------------------------------------------------------------- meaning
 RECURSIVE RecNode(_, _, _, _)
@@ -61,7 +69,7 @@ RecNode(n, p, i, inc) ==
          ELSE IF i = Len(p) THEN Ok
          ELSE RecKids(n.kids, p, i + 1, inc)
     [] ValueNode(n) ->
-         IF i > Len(p) THEN (IF IsEmptyType(n.typ) \/ inc THEN Ok ELSE Bad(i))
+         IF i > Len(p) THEN (IF NeedsNoValue(n) \/ inc THEN Ok ELSE Bad(i))
          ELSE IF ~TypeAccepts(n.typ, p[i]) THEN Bad(i)
          ELSE IF i < Len(p) THEN Bad(i + 1)
          ELSE Ok
@@ -122,7 +130,7 @@ EndVerdict(st, n, inc) ==
     [] st.ph = "entry" -> Ok
     [] st.ph = "keys"  -> IF inc THEN Ok ELSE Unj
     [] st.ph = "unk"   -> Unj
-    [] st.ph = "val"   -> IF IsEmptyType(st.node.typ) \/ inc THEN Ok ELSE Bad(n + 1)
+    [] st.ph = "val"   -> IF NeedsNoValue(st.node) \/ inc THEN Ok ELSE Bad(n + 1)
     [] st.ph = "done"  -> Ok
     [] st.ph = "rej"   -> Bad(st.at)
 
@@ -157,6 +165,16 @@ KeyedLists(K, a, b) ==
   IF b > Len(Orders(K)) THEN << >>
   ELSE LET style == 1 + ((a + b) - 2 * ((a + b) \div 2))
        IN <<KeyedList("l" \o ToString(a) \o "o" \o ToString(b), TypeSeq(K, a), Orders(K)[b], style)>> \o KeyedLists(K, a, b + 1)
+
+\* ------------------------------------------------- every type x every kind
+\* the value spaces used here (SchemaNodes.TypeAccepts), direct and through typedefs
+ValTypes == <<"string", "int8", "empty", "boolean", "enum", "union">>
+TdTypes  == <<"tstring", "tint8", "tempty", "tbool", "tenum", "tunion">>
+\* a leaf <pfx>f<j> and a leaf-list <pfx>l<j> of every type ts[j]
+RECURSIVE ValueKids(_, _, _)
+ValueKids(pfx, ts, j) ==
+  IF j > Len(ts) THEN << >>
+  ELSE << Leaf(pfx \o "f" \o ToString(j), ts[j]), LL(pfx \o "l" \o ToString(j), ts[j]) >> \o ValueKids(pfx, ts, j + 1)
 
 \* ------------------------------------------------------------------ shapes
 \* every node kind under every node kind, nested choices, empty-typed leaves,
@@ -240,15 +258,33 @@ PathShape(id) ==
             Choice("ch", << Case("c1", << ListK("q", <<"a", "q">>, << Leaf("q", "string"), Leaf("a", "tint8"), Leaf("x", "empty") >>) >>),
                             ListK("sh", <<"a", "b", "k">>, << Leaf("k", "int8"), Leaf("b", "int8"), Leaf("a", "string") >>) >>),
             ListK("same", <<"a", "b">>, << Leaf("b", "int8"), Leaf("a", "int8") >>) >>
-NPathShapes == 24
+    [] id = 25 ->  \* every type x both node kinds that carry a value, at the top level
+         ValueKids("", ValTypes, 1)
+    [] id = 26 ->  \* the same through typedefs, inside a list entry (key of an enumeration type)
+         << List("l", "k", << Leaf("k", "enum") >> \o ValueKids("", TdTypes, 1)) >>
+    [] id = 27 ->  \* value nodes in cases, as short-hand cases, in a non-presence container inside a case, in a presence container
+         << Choice("ch", << Case("c1", ValueKids("a", <<"empty", "tbool", "enum">>, 1)),
+                            LL("sh", "empty"), Leaf("se", "tempty"), LL("su", "tunion"),
+                            Case("c2", << Cont("np", ValueKids("b", <<"tempty", "boolean", "tenum", "union">>, 1)) >>) >>),
+            PCont("pc", ValueKids("c", <<"empty", "tunion", "string">>, 1)) >>
+    [] id = 28 ->  \* key leaves of every type a key may have (7.8.2: not empty), addressed by name below their own entry
+                   \* (with the entry's value, another valid one, an invalid one), beside leaf-lists and leaves of other types
+         << List("lb", "k", << Leaf("k", "boolean"), LL("m", "empty") >>),
+            List("le", "k", << LL("m", "tempty"), Leaf("k", "enum") >>),
+            List("lu", "k", << Leaf("k", "union"), Leaf("e", "empty") >>),
+            List("lt", "k", << Leaf("v", "tempty"), Leaf("k", "tbool"), LL("w", "enum") >>),
+            List("ln", "k", << Leaf("k", "tenum"), List("in", "k", << Leaf("k", "tunion"), LL("k2", "boolean") >>) >>) >>
+NPathShapes == 28
 
 \* tokens tried on a shape: every name of the schema (choice and case names included),
 \* a valid integer (also a valid string), a token no type but string accepts, an unknown name,
 \* and the empty token (the value of type empty, a valid string, no integer, no name)
-\* - in a schema that uses type boolean, also a token only boolean and string accept
-RECURSIVE UsesBool(_)
-UsesBool(kids) == \E i \in 1..Len(kids) : BaseType(kids[i].typ) = "boolean" \/ UsesBool(kids[i].kids)
-BoolToks(schema) == IF UsesBool(schema) THEN {"true"} ELSE {}
+\* - in a schema that uses type boolean or the union, also a token only those and string accept ("true");
+\* in a schema that uses the enumeration, a token only it and string accept ("on")
+RECURSIVE UsesType(_, _)
+UsesType(kids, B) == \E i \in 1..Len(kids) : BaseType(kids[i].typ) \in B \/ UsesType(kids[i].kids, B)
+BoolToks(schema) == (IF UsesType(schema, {"boolean", "union"}) THEN {"true"} ELSE {})
+                    \cup (IF UsesType(schema, {"enum"}) THEN {"on"} ELSE {})
 PathTokens(schema) == AllNames(schema) \cup {"5", "bad", "zz", ""} \cup BoolToks(schema)
 \* values used inside viable paths (valid and invalid ones for every type)
 PathValues == {"5", "bad", ""}
